@@ -1038,6 +1038,9 @@ def _ga_deref(it, key, a, ce):
         raise Undecided("GenericArray deref of %r" % (p,))
     if p.idx is not None:
         if p.ety is not None and it.ty.size_bits(p.ety) != it.ty.size_bits(et):
+            es, vs = it.ty.size_bits(p.ety), it.ty.size_bits(et)
+            if es and vs % es == 0:
+                return Ptr(p.cell, p.path, idx=p.idx, meta=n, ety=p.ety, vty=et)     # elements are views over the run
             raise Undecided("GenericArray view granularity")
         return Ptr(p.cell, p.path, idx=p.idx, meta=n, ety=p.ety or et)
     v = it.read_path(p.cell.v, p.path)
